@@ -67,3 +67,9 @@ claim("C16",
       "Static: every MsgType constant has a decoder case constructing the type whose MsgType() is that constant, the encoder prefixes the message's own type, the prefix is length-checked before it is read; every wire field is written from and restored into the same-named in-memory field and every in-memory field crosses or is a documented non-wire field; JSON-nullable pointers are nil-tested before any dereference across calls; every decoder error is returned; the frame size is bounded before allocation. Three obligations about pool-contract proofs are a recorded known finding.",
       "Trusted: go/ssa, encoding/json/uuid/chiapos decoders do not panic. NOT decided: equality after round trip for all values (encoder injectivity, big.Int sign), third-party decoder totality.",
       "DESIGN.md §4 C16")
+
+claim("C17",
+      "stop-protocol shape check + wait-group discipline + channel close/send discipline + cancellation-arm rule + blocking-under-lock + call pairing + routing provenance",
+      "Decides ONLY the no-panic / prompt-return structure and two routing bindings of the cluster layer: CAS-guarded stop protocol of every component; every counted goroutine is added before start and defers Done; every channel field is closed once by its owning goroutine or under the task lock with unregistering, and every send on a closable channel is recover-guarded / in the closing function / under the closer's lock; every blocking operation of a waited goroutine has a cancellation arm; no blocking send under the task lock; AddTask paired with a deferred RemoveTask of the same request; a report is sent on the channel looked up by its own task id and carries the reporting collector's id.",
+      "Trusted: go/ssa, context cancellation, ants.Pool.Submit treated as asynchronous. NOT decided (not applicable to static analysis in reach): exactly-once delivery, per-connection order, replay to late subscribers, behaviour for all topologies and drop points.",
+      "DESIGN.md §4 C17")
